@@ -230,6 +230,17 @@ func deepQDirected() []C05DeepQ {
 		mk(map[string]any{"tags": []any{"p", "q"}}, "f[tags][0]", "p", "f[tags][1]", "q"),
 		mk(map[string]any{"o": map[string]any{"x": int64(3), "y": []any{int64(4), int64(5)}}}, "f[o][x]", "3", "f[o][y][0]", "4", "f[o][y][1]", "5"),
 		mk(map[string]any{"rows": []any{map[string]any{"k": "u", "on": true}, map[string]any{"k": "v"}}}, "f[rows][0][k]", "u", "f[rows][0][on]", "true", "f[rows][1][k]", "v"),
+		// additionalProperties next to declared properties: a declared member keeps its declared type
+		func() C05DeepQ {
+			c := mk(map[string]any{"n": int64(5), "x": "a"}, "f[n]", "5", "f[x]", "a")
+			c.Schema = &DeepNode{Type: "object", Props: map[string]*DeepNode{"n": i}, AP: s}
+			return c
+		}(),
+		func() C05DeepQ {
+			c := mk(map[string]any{"n": "5", "x": int64(7), "y": int64(8)}, "f[n]", "5", "f[x]", "7", "f[y]", "8")
+			c.Schema = &DeepNode{Type: "object", Props: map[string]*DeepNode{"n": s}, AP: i}
+			return c
+		}(),
 		mk(nil, "f[a]", "1", "f[a][b]", "2"), mk(nil, "f[tags][1]", "q"), mk(nil, "f[tags][x]", "q"), mk(nil, "f[tags][-1]", "q"), mk(nil, "f[tags]", "q"),
 		mk(nil, "f[tags][4200]", "q"), mk(nil, "f[a]", "abc"), mk(nil, "f[a]", ""), mk(nil, "f[zz]", "1"), mk(nil, "f[]", "1"), mk(nil, "f[o]", "1"), mk(nil, "f[o][x][y]", "1"),
 		mk(nil, "f[rows][0]", "1"), mk(nil, "f[rows][0][k][z]", "1"), mk(nil, "g[a]", "1"), mk(nil, "f", "1"), mk(nil, "fa]", "1"), mk(nil, "f[a]junk[b]", "1"),
